@@ -22,18 +22,18 @@ Section Outside.
   Qed.
 
   Lemma outside_kids ks : Forall outside_stmt ks -> forall p i s qv qp,
-    (forall j p' r, i <= j -> is_prefix (p ++ [j]) p' = true -> F (p', r) = true) ->
+    (forall j p' r, i <= j < i + length ks -> is_prefix (p ++ [j]) p' = true -> F (p', r) = true) ->
     sim_eq F (run_kids ks p i s (filter F qv) (filter F qp)) (run_kids ks p i s qv qp).
   Proof.
     induction 1 as [|k ks Hk _ IH]; intros p i s qv qp HF.
     - rewrite !run_kids_nil. unfold sim_eq. rproj. auto.
     - rewrite !run_kids_cons. cbn zeta.
       destruct (Hk (p ++ [i]) s qv qp) as (A & B & C & D).
-      { intros p' r Hp'. eapply HF; [apply Nat.le_refl | exact Hp']. }
+      { intros p' r Hp'. eapply HF; [|exact Hp']. cbn [length]. lia. }
       rewrite A, B, C.
       destruct (IH p (S i) (r_st (run k (p ++ [i]) s qv qp)) (r_qv (run k (p ++ [i]) s qv qp))
                   (r_qp (run k (p ++ [i]) s qv qp))) as (A' & B' & C' & D').
-      { intros j p' r Hj. apply HF. lia. }
+      { intros j p' r Hj. apply HF. cbn [length]. lia. }
       unfold sim_eq. rproj. repeat split; auto. rewrite D, D', filter_app. reflexivity.
   Qed.
 
@@ -53,7 +53,7 @@ Section Outside.
   Qed.
 
   Lemma outside_kids' ks p i s qv qp :
-    (forall j p' r, i <= j -> is_prefix (p ++ [j]) p' = true -> F (p', r) = true) ->
+    (forall j p' r, i <= j < i + length ks -> is_prefix (p ++ [j]) p' = true -> F (p', r) = true) ->
     sim_eq F (run_kids ks p i s (filter F qv) (filter F qp)) (run_kids ks p i s qv qp).
   Proof. apply outside_kids. apply Forall_forall. intros n _. apply outside_node. Qed.
 
